@@ -5,6 +5,7 @@ Property theorems only; lemmas live in Neutrino/Lemmas/Store*.lean.
 import Neutrino.Lemmas.StoreFault
 import Neutrino.Lemmas.IndexBuckets
 import Neutrino.Lemmas.StoreReads
+import Neutrino.Lemmas.StoreSplit
 namespace Neutrino.Store
 
 /-- **Refinement to a plain pair of lists**, for every operation from every
@@ -233,6 +234,86 @@ theorem C07_index_source_shape :
     Gen.Store.indexDeleteRootElseSub = true ∧ Gen.Store.indexOpenEnsuresSubBuckets = true ∧
     Gen.Store.indexEnsureAllPrefixes = true := by decide
 
+/-! ### Bulk appends: the index write of one batch is ONE transaction -/
+
+/-- **Failed bulk append, as the code writes the index** (one transaction for
+the whole batch and the tip, fact `indexAddOneTransaction`): `WriteHeaders`
+over the single-chunk split is all or nothing for every injected fault — a
+batch of any size. -/
+theorem C07_single_tx_append_unchanged (d : Durable) (l : Log) (ids : List Nat) (k : FaultKind) (fs a : Nat)
+    (hrep : Rep d l) (hc : Contract l (.wb ids)) :
+    let r := R.fin (writeBlocksSplit ids [stamped ids l.blocks.length] { d := d, inj := .fault k fs a })
+    (r.2 = .err ∧ r.1 = d) ∨ (r.2 = .ok ∧ Rep r.1 (l.apply (.wb ids))) := by
+  obtain ⟨tip, htip, hbt⟩ := rep_btipHeight hrep
+  have hlenB := len_pred_succ hrep.neB
+  have := C07_failed_append_unchanged d l ids k fs a hrep hc
+  rw [writeBlocksSplit_single]
+  simpa [exec, hbt, hlenB] using this
+
+/-- **Every split writes the same on success**: with nothing injected, the
+transactions of any split of the batch leave the index exactly as the single
+transaction does — cutting the write up is invisible until something fails. -/
+theorem C07_split_success_same (tip : Option Nat) (chunks : List (List (Nat × Nat))) (d : Durable) (st : Nat)
+    (hne : chunks ≠ []) :
+    ∃ n m, indexTxs tip chunks ⟨d, st, .none⟩ = R.ok true
+        ⟨{ d with db := { (d.db.putAll chunks.flatten) with btip := tip.orElse (fun _ => d.db.btip) } }, st + n, .none⟩ ∧
+      indexTxs tip [chunks.flatten] ⟨d, st, .none⟩ = R.ok true
+        ⟨{ d with db := { (d.db.putAll chunks.flatten) with btip := tip.orElse (fun _ => d.db.btip) } }, st + m, .none⟩ := by
+  obtain ⟨n, hn⟩ := indexTxs_none tip chunks d st hne
+  obtain ⟨m, hm⟩ := indexTxs_none tip [chunks.flatten] d st (by simp)
+  refine ⟨n, m, hn, ?_⟩
+  simpa using hm
+
+/-- **…but a split index write is not all-or-nothing**, even with the tip moved
+by the last transaction only: two transactions, the second one fails — the
+append reports the failure, the flat file is cut back and the tip has not
+moved, yet the hash of a header that was never appended resolves to a height
+beyond the tip (and the filter store, which shares the index, resolves it too).
+The failed append has left the store changed. -/
+theorem C07_split_append_counterexample :
+    let r := R.fin (writeBlocksSplit [1, 2] [[(1, 1)], [(2, 2)]] { d := init, inj := .fault .dberr 2 0 })
+    r.2 = .err ∧ r.1 ≠ init ∧ r.1.bf = init.bf ∧ r.1.db.btip = init.db.btip ∧
+    r.1.db.height? 1 = some 1 ∧ abs r.1 = none := by decide
+
+/-- what the two theorems above rely on in headerfs/index.go (regenerated on every run) -/
+theorem C07_bulk_source_shape : Gen.Store.indexAddOneTransaction = true := by decide
+
+/-! ### Range reads against a file shorter than the index says -/
+
+/-- **A range that is not entirely in the file is an error — for every length**:
+whatever the start, a range whose end lies beyond the last whole entry yields
+no headers at all (never the part that exists, never zero-filled entries). -/
+theorem C07_short_file_read_fails (f : FileSt) (lo hi : Nat) (h : f.ents.length ≤ hi) :
+    readRange f lo hi = none := by
+  unfold readRange
+  by_cases hc : f.corrupt = true
+  · simp only [hc, ↓reduceIte]
+  · have : ¬ (hi < f.ents.length ∧ lo ≤ hi) := by omega
+    simp only [hc, this, ↓reduceIte, Bool.false_eq_true]
+
+/-- **The filter store's ancestor ranges answer from the list or fail**: the
+height of the stop hash comes from the shared block index, so with the block
+store ahead a stop hash above the filter tip names a range the filter file
+does not hold; then — whether the range starts below, at or above the filter
+tip — the call fails; inside the file it returns the list's entries. -/
+theorem C07_filter_ancestors (d : Durable) (l : Log) (hrep : Rep d l) (id h n : Nat) (hid : l.blocks[h]? = some id) :
+    (n ≤ h → h < l.filters.length →
+      fetchFilterAncestors d n id = some (h - n, (l.filters.drop (h - n)).take (n + 1))) ∧
+    (l.filters.length ≤ h → fetchFilterAncestors d n id = none) ∧
+    (n > h → fetchFilterAncestors d n id = none) := by
+  have hh : d.db.height? id = some h := hrep.idxPos h id hid
+  refine ⟨fun hn hlt => ?_, fun hge => ?_, fun hn => ?_⟩
+  · have hnot : ¬ n > h := by omega
+    have hle : h - n ≤ h := by omega
+    have e : h - (h - n) + 1 = n + 1 := by omega
+    simp [fetchFilterAncestors, hh, hnot, readRange, hrep.fents, hlt, hle, e]
+  · have hs : readRange d.ff (h - n) h = none :=
+      C07_short_file_read_fails d.ff (h - n) h (by simp [hrep.fents, hge])
+    by_cases hn : n > h
+    · simp [fetchFilterAncestors, hh, hn]
+    · simp [fetchFilterAncestors, hh, hn, hs]
+  · simp [fetchFilterAncestors, hh, hn]
+
 /-! Non-vacuity. -/
 /-- a database written by an older version (entry 1 in the root bucket), extended by this one (entry 2) -/
 example :
@@ -249,5 +330,11 @@ example : ContractAll Log.init [.wb [1, 2, 3], .wf [1, 2], .rb 1, .rf, .rollto 1
 example : (exec init (.wb [1, 2]) (.fault .shortwrite 0 100)).2 = .err := by decide
 example : (exec init (.wb [1, 2]) (.fault .shortwrite 0 100)).1 = init := by decide
 example : (exec init (.wb [1, 2]) (.fault .dberr 1 0)) = (init, .err) := by decide
+/-- block store at height 3, filter store at 1: a range straddling the filter tip fails, one inside the file answers -/
+example :
+    let d := (exec (exec init (.wb [1, 2, 3]) .none).1 (.wf [1]) .none).1
+    (fetchFilterAncestors d 2 3, fetchFilterAncestors d 1 3, fetchFilterAncestors d 1 1) = (none, none, some (0, [0, 1])) := by
+  decide
+example : (R.fin (writeBlocksSplit [1, 2] [stamped [1, 2] 1] { d := init, inj := .fault .dberr 1 0 })) = (init, .err) := by decide
 
 end Neutrino.Store
